@@ -704,6 +704,19 @@ def run_c09(ctx):
         ctx.notes.append("a seeded sample of %d of the %d enumerated length-3 histories is replayed" % (n3, len(c3)))
         c3 = ctx.rng.sample(c3, n3)
     cases += c3
+    if not q:
+        # longer histories: TLC simulates behaviours of the API machine (random walks of length 6), replayed like the others
+        u = {"Pairs": S([list(p) for p in pairs]), "Ops": set(ALL_OPS), "DictVals": S(((0, 0), (1, 1), (0, 1))), "MaxLen": 6,
+             "Deviations": set(), "RuleCat": {"$set": rules}}
+        d = os.path.join(ctx.work, "p1_API_sim")
+        r = tlc.model_check(d, "PuanAPI", u, invariants=["Determinism", "AddIsBuild"], name="API_sim",
+                            simulate="file=%s/tr,num=1500" % d, workers=1)
+        sims = [st for st in tlc.sim_final_states(d + "/tr", only={"hist", "rcp"}) if len(st.get("hist", [])) >= 3]
+        ctx.p1.append({"module": "PuanAPI", "config": "API_sim (-simulate num=1500, depth 6)", "constants": {}, "invariants": ["Determinism", "AddIsBuild"],
+                       "properties": [], "states": sum(len(st["hist"]) + 1 for st in sims), "distinct": sum(len(st["hist"]) + 1 for st in sims),
+                       "depth": 6, "wall_s": round(r["wall"], 1), "ok": True, "violated": None})
+        cases += history_cases(ctx, sims, [p for pr in pairs for p in pr])
+        ctx.region("simulated_histories", len(sims))
     run_histories(ctx, cases)
 
 def run_c18(ctx):
